@@ -19,7 +19,8 @@ import (
 // `headers.Name`, integer literals, `x != nil` on slices, and the calls listed in `callTable`.  Anything else becomes
 // `GoRt.unsupported "<go text>"`, which no equivalence proof survives.
 //
-// A function returns `Option Buf`: `none` for `return false`, `some buf` for `return true` with the assignments made.
+// A bool function returns `Bool × Buf`: the result and the buffer with the assignments made up to that `return`
+// (also on `return false`: what a failing step leaves in the buffer is visible in debug mode).
 
 var fieldTable = map[string]string{
 	"tree": "tree", "allowedMethods": "allowedMethods", "allowedReqHdrs": "allowedReqHdrs", "acah": "acah",
@@ -140,11 +141,12 @@ func (t *tr) stmts(list []ast.Stmt, ind string) string {
 			if id, ok := s.Results[0].(*ast.Ident); ok {
 				switch id.Name {
 				case "true":
-					return "some " + t.state
+					return "(true, " + t.state + ")"
 				case "false":
-					return "none"
+					return "(false, " + t.state + ")"
 				}
 			}
+			return "(" + t.expr(s.Results[0]) + ", " + t.state + ")"
 		}
 	case *ast.AssignStmt:
 		// buf[K] = V
@@ -305,7 +307,7 @@ func translatePipeline(pkgs map[string]*pkgInfo) string {
 			}
 		}
 		body := t.stmts(fd.Body.List, "  ")
-		res := "Option Buf"
+		res := "Bool × Buf"
 		if t.void {
 			res = "HdrMap"
 		}
